@@ -37,7 +37,9 @@ def strategy(tier):
             pts = [draw(S.point(m, x_hi=10.0, th_hi=2.0)) for _ in range(2)]
             return {"part": part, "model": m, "points": pts,
                     "grid": sorted(set(draw(st.lists(S.fl(0.02, 1.0, 3), min_size=2, max_size=6))))}
-        m = draw(S.event_model(transition_only=True, kinds="T"))
+        # (half of the closed models declare limits - a compartment with a capacity: whatever the engine does at a full
+        # compartment, nobody may appear or vanish)
+        m = draw(S.event_model(transition_only=True, kinds="T", limits=draw(st.booleans())))
         su = draw(S.stochastic_setup(m))
         algo = draw(st.sampled_from(["exact", "tau", "pre_tau", "exact-grid", "tau-grid"]))
         return {"part": part, "model": m, "setup": su, "algo": algo,
@@ -105,7 +107,7 @@ def oracle(case, rec):
     model, order = stoch.prepare(m, su)
     algo = case["algo"]
     exact = algo.startswith("exact")
-    model.pre_tau = case["pre_tau"] if algo == "pre_tau" else None
+    model.pre_tau = case["pre_tau"] / su.get("clock", 1.0) if algo == "pre_tau" else None
     t_end = su["t0"] + su["horizon"]
     rec.label("algo:" + algo)
     box = stoch.limit_steps(model, 400000 if exact else 60000)
